@@ -8,6 +8,27 @@ from lib import vfmt
 
 # ------------------------------------------------------------------ script generation
 def gen_script(rng, tier, focus=None):
+    if focus == 'lastleave':
+        # the last member(s) leave the server set while several calls are in flight on them (no reply yet); the calls'
+        # deadlines pass while the set is empty; the late replies arrive afterwards; members may come back
+        stack = rng.choice(['mux', 'mux', 'thrift'])
+        neps = rng.choice([1, 1, 2])
+        steps = [['srv', ep, 'hold', 5] for ep in range(neps)] + [['adv', 50]]
+        for _ in range(rng.choice([2, 3, 4])):
+            steps.append(['call', rng.choice([5, 10, 20]) * 10 + rng.randrange(1, 10)])
+            if rng.random() < 0.4:
+                steps.append(['adv', rng.choice([1, 11, 31])])
+        order = list(range(neps))
+        rng.shuffle(order)
+        for ep in order:
+            steps.append(['leave', ep])
+        steps += [['adv', rng.choice([60, 130, 250])]]
+        if rng.random() < 0.5:
+            steps += [['join', order[0]], ['adv', 20]]
+        steps += [['release', ep, rng.choice(['fifo', 'lifo'])] for ep in range(neps)]
+        steps += [['adv', 300], ['call', 107], ['adv', 300]]
+        return {'stack': stack, 'neps': neps, 'open_delay': 0, 'pool': None, 'steps': steps, 'aged': False,
+                'provider': 'zk', 'zk_own': rng.random() < 0.5}
     if focus == 'slowpeer':
         # a peer that stops reading: the write of one call blocks, later calls wait behind it (mux: in the send queue;
         # thrift: for the pooled connection), deadlines pass meanwhile, then the peer reads again
@@ -195,6 +216,16 @@ def gen_script(rng, tier, focus=None):
           'aged': stack == 'mux' and rng.random() < 0.2}
     if default_T:
         sc['default_T'] = default_T
+    if rng.random() < 0.25:
+        # a ZooKeeper-backed server set whose members leave and join while calls are in flight (also the last one)
+        sc['provider'] = 'zk'
+        sc['zk_own'] = rng.random() < 0.5
+        k = 0
+        while k < len(steps):
+            if steps[k][0] in ('call', 'adv') and rng.random() < 0.25:
+                steps.insert(k + 1, [rng.choice(['leave', 'leave', 'join']), rng.randrange(neps)])
+                k += 1
+            k += 1
     return sc
 
 
@@ -412,7 +443,7 @@ def run_script(script, comp='e2e'):
         return ['err', type(innerex).__name__]
 
     saved_ar = dispatch.AsyncResult
-    saved_kazoo = zk_provider = None
+    saved_kazoo = zk_provider = zk = None
     import scales.mux.sink as muxsink
     saved_pool = muxsink.TagPool
     if script.get('aged') and stack == 'mux':
@@ -535,6 +566,17 @@ def run_script(script, comp='e2e'):
                         from scales.resurrector import ResurrectorSink
                         mw = ResurrectorSink.Builder().sink_properties.max_wait_interval
                         ev('reach', st[1], bool(st[2]), now(), int(mw * 1000000))
+            elif kind in ('leave', 'join'):
+                # membership changes (only with the ZooKeeper-backed server set): the member's node is deleted / created
+                if zk is not None and st[1] < neps:
+                    name = 'member_%010d' % st[1]
+                    if kind == 'leave' and name in zk.kids:
+                        zk.t_delete_child(name)
+                        tags.add('member-left')
+                    elif kind == 'join' and name not in zk.kids:
+                        zk.t_create_child(name, fakezk.member_data('h%d' % st[1], 9000 + st[1]))
+                        tags.add('member-joined')
+                    rt.drain()
             elif kind == 'stall':
                 if st[1] < neps and srvs[st[1]].stalled is None:
                     from gevent.event import Event as _Ev
